@@ -303,10 +303,11 @@ func (c *Client) Create(_ context.Context, obj client.Object, opts ...client.Cre
 	call.Body = m
 	call.Manager = c.manager(co.FieldManager)
 	fault := c.fire(call)
+	call.Pre = c.S.Peek(k)
+	call.Post = call.Pre
 	if err := c.preFault(call, fault); err != nil {
 		return err
 	}
-	call.Pre = c.S.Peek(k)
 	ret, err := c.S.doCreate(m, reqOpts{dryRun: call.DryRun, manager: call.Manager})
 	call.Post = c.S.Peek(k)
 	return c.finishWrite(call, fault, obj, ret, err)
@@ -335,10 +336,11 @@ func (c *Client) update(obj client.Object, status, dryRun bool, fm string) error
 	call.Body = m
 	call.Manager = c.manager(fm)
 	fault := c.fire(call)
+	call.Pre = c.S.Peek(k)
+	call.Post = call.Pre
 	if err := c.preFault(call, fault); err != nil {
 		return err
 	}
-	call.Pre = c.S.Peek(k)
 	ret, err := c.S.doUpdate(m, status, reqOpts{dryRun: dryRun, manager: call.Manager})
 	call.Post = c.S.Peek(k)
 	return c.finishWrite(call, fault, obj, ret, err)
@@ -393,10 +395,11 @@ func (c *Client) patch(obj client.Object, patch client.Patch, status bool, po cl
 		call.Manager = c.manager(po.FieldManager)
 	}
 	fault := c.fire(call)
+	call.Pre = c.S.Peek(k)
+	call.Post = call.Pre
 	if err := c.preFault(call, fault); err != nil {
 		return err
 	}
-	call.Pre = c.S.Peek(k)
 	ret, err := c.S.doPatch(gvk, obj.GetNamespace(), obj.GetName(), pt, data, status,
 		reqOpts{dryRun: call.DryRun, manager: call.Manager, force: call.Force})
 	call.Post = c.S.Peek(k)
@@ -432,10 +435,11 @@ func (c *Client) Delete(_ context.Context, obj client.Object, opts ...client.Del
 		call.Propagation = string(*do.PropagationPolicy)
 	}
 	fault := c.fire(call)
+	call.Pre = c.S.Peek(k)
+	call.Post = call.Pre
 	if err := c.preFault(call, fault); err != nil {
 		return err
 	}
-	call.Pre = c.S.Peek(k)
 	err = c.S.doDelete(gvk, obj.GetNamespace(), obj.GetName(), call.PreUID, call.PreRV, call.Propagation, reqOpts{dryRun: call.DryRun})
 	call.Post = c.S.Peek(k)
 	return c.finishWrite(call, fault, nil, nil, err)
